@@ -120,3 +120,9 @@ Definition scale (k : Z) (t : table) : table := map (fun r : row => (fst r, k * 
 Definition same_row (r r' : row) : Prop := Permutation (fst r) (fst r') /\ snd r = snd r'.
 Definition same_table (t t' : table) : Prop :=
   exists t1, Permutation t t1 /\ Forall2 same_row t1 t'.
+
+(* a metric value lies in [lo, hi] (NaN lies in every range) *)
+Definition in_range (lo hi : Q) (o : option Q) : Prop :=
+  match o with Some x => (lo <= x /\ x <= hi)%Q | None => True end.
+(* platform p uses no line *)
+Definition uses_nothing (t : table) (p : string) : Prop := L t p = [].
